@@ -289,7 +289,11 @@ func TestC03(t *testing.T) {
 		in := d.Exp
 
 		res := d.QF
-		if perr := hx.Safely(func() { res = d.QF.Sort(hx.BuildOrders(orders)...) }); perr != nil {
+		realOrders := hx.BuildOrders(orders)
+		if rapid.IntRange(0, 3).Draw(t, "secondcall") == 0 {
+			_ = hx.Safely(func() { _ = d.QF.Sort(realOrders...) }) // the second call with the same order values counts
+		}
+		if perr := hx.Safely(func() { res = d.QF.Sort(realOrders...) }); perr != nil {
 			t.Fatalf("Sort panicked: %v\n%s", perr, desc())
 		}
 		if res.Err != nil {
